@@ -19,15 +19,12 @@ TraceFile == IOEnv.TRACE_FILE
 Trace == ndJsonDeserialize(TraceFile)
 
 TrFieldBytes == Trace[1].names
-TrNormTable  == Trace[2].table
-TrNormOf ==
-    [p \in UNION {{<<f, n>> : n \in 0..(Len(TrNormTable[f]) - 1)} : f \in DOMAIN TrNormTable}
-        |-> TrNormTable[p[1]][p[2] + 1]]
+TrNormOf ==                     \* LET so that the trace is read once while this is built
+    LET t == Trace[2].table IN
+    [p \in UNION {{<<f, n>> : n \in 0..(Len(t[f]) - 1)} : f \in DOMAIN t} |-> t[p[1]][p[2] + 1]]
 TrBatchOf(id) == Trace[id + 3].docs
 
-FirstEvent == CHOOSE i \in DOMAIN Trace :
-                 /\ Trace[i].ev \notin {"def_names", "def_norm", "def_batch"}
-                 /\ \A j \in 1..(i - 1) : Trace[j].ev \in {"def_names", "def_norm", "def_batch"}
+FirstEvent == 3 + Trace[1].nbatch      \* header: def_names, def_norm, def_batch * nbatch
 
 VARIABLES l,      \* next line to consume
           viols   \* collected contradictions: [l, ev, bad, exp, got]
